@@ -121,6 +121,16 @@ func loadMutants() []mutant {
 		}
 		out = append(out, mutant{ID: "seed-" + filepath.Base(dir), Property: meta.Property, Rule: meta.Property, Patch: pf, Why: "independently seeded change"})
 	}
+	// independently written behaviour-preserving refactorings: every check must stay silent on them
+	negs, _ := filepath.Glob("/verif/seeded/neg/*/patch.diff")
+	sort.Strings(negs)
+	var all []string
+	for _, p := range allProps() {
+		all = append(all, p.ID)
+	}
+	for _, pf := range negs {
+		out = append(out, mutant{ID: "refactor-" + filepath.Base(filepath.Dir(pf)), Property: "NEG", Negative: true, Props: all, Patch: pf, Why: "independently written behaviour-preserving refactoring"})
+	}
 	return out
 }
 
